@@ -9,6 +9,8 @@ import (
 	"path/filepath"
 	"strings"
 	"time"
+	"unicode"
+	"unicode/utf8"
 
 	"github.com/sboehler/knut/lib/syntax"
 )
@@ -335,6 +337,231 @@ func synFormatStress(r *RNG) (string, []string) {
 	return b.String(), kinds
 }
 
+// ---------------------------------------------------------------- forms: text whose bytes a Unicode transformation would change
+//
+// `format` must copy comments, descriptions and include paths byte for byte and must not touch a file that does not parse.  Text that
+// is already in every normal form (ASCII, precomposed accents) cannot tell a byte copy from a copy through a text transformation
+// (normalisation to NFC/NFD/NFKC, case or width folding, stripping of format characters, ToValidUTF8), so the streams `forms` and
+// `formscli` put material of each class at every kind of place: inside and at the very start/end of a comment, in descriptions and
+// include paths, as a new comment or junk line between directives, after a letter of an account/commodity (where it makes the file
+// unparseable on the unchanged code), at the start and the end of the file; and respell precomposed letters of the generated text by
+// canonically equivalent sequences.
+var c08FormsMaterial = map[string][]string{
+	// canonical decompositions of precomposed characters (what macOS input and file names produce)
+	"decomposed": {"e\u0301", "u\u0308", "A\u030a", "n\u0303", "c\u0327", "o\u0308\u0304", "\u0435\u0308", "=\u0338", "<\u0338", "\u03b1\u0301", "\u30ab\u3099", "\u0627\u0653"},
+	// singletons: one code point whose NFC form is a different code point
+	"singleton": {"\u2126", "\u212b", "\u212a", "\u2000", "\u2001", "\u0340", "\u0341", "\u0343", "\u0374", "\u037e", "\u0387", "\u1f71", "\u1fbe", "\u2329", "\u232a", "\uf900", "\ufa10", "\U0002f800"},
+	// composition exclusions: precomposed characters that NFC takes apart
+	"excluded": {"\u0344", "\u0958", "\u2adc", "\ufb1d", "\u0f43", "\U0001d15e"},
+	// conjoining Hangul jamo, and a syllable followed by a trailing consonant
+	"jamo": {"\u1112\u1161\u11ab", "\u1100\u1161", "\uac00\u11a8", "\u1100\u1161\u11a8\u11a8"},
+	// combining marks in non-canonical order
+	"order": {"a\u0301\u0323", "o\u0302\u0323", "\u0301\u0323", "x\u0315\u0300", "e\u0301\u0328\u0323", "\u0308\u0301\u0323"},
+	// a combining mark on its own: composes with whatever precedes it at the place of insertion
+	"mark": {"\u0301", "\u0308", "\u0323", "\u0303", "\u030a", "\u0338", "\u20d7", "\u3099", "\u0653"},
+	// stable under NFC, changed by NFD / NFKC / case folding / width folding / removal of format characters
+	"compat": {"\u00e9", "\u00c5", "\u1ea5", "\ud55c", "\ufb01", "\u00b2", "\u2460", "\uff21", "\uff71", "\u338f", "\u2026", "\u00a0", "\u00ad", "\u200d", "\u200e", "\u2060", "\ufe0f", "\u034f", "\u0130", "\u1e9e", "\u017f", "\u03c2", "\u01c5", "\u05d9\u05b4", "\u0915\u093c"},
+	// not text at all: invalid UTF-8, surrogates and noncharacters in UTF-8 clothing, overlong forms, NUL
+	"invalid": {"\xff", "\xc3", "\xe2\x82", "\xed\xa0\x80", "\xef\xbf\xbe", "\xc0\xaf", "\xf4\x90\x80\x80", "\x00", "\xef\xbf\xbd"},
+}
+
+var c08FormsClasses = []string{"decomposed", "decomposed", "singleton", "singleton", "excluded", "jamo", "order", "mark", "mark", "compat", "invalid"}
+
+// canonically equivalent respellings of characters the generators produce (synLetters, synComs, freeText)
+var c08FormsRespell = [][2]string{{"\u00e9", "e\u0301"}, {"\u00fc", "u\u0308"}, {"\u00f1", "n\u0303"}, {"\u03a9", "\u2126"}, {"\u00c9", "E\u0301"}}
+
+func (x *c08run) formsMaterial(r *RNG) (string, string) {
+	cl := Pick(r, c08FormsClasses)
+	var b strings.Builder
+	if r.Chance(1, 4) {
+		b.WriteString(Pick(r, []string{"e", "A", "o", "\u0399", "\u00e9", "\u1112", "1", "-"}))
+	}
+	for k := r.Range(1, 3); k > 0; k-- {
+		b.WriteString(Pick(r, c08FormsMaterial[cl]))
+	}
+	if r.Chance(1, 6) {
+		b.WriteString(Pick(r, []string{"x", "\u0301", " ", "\u11a8"}))
+	}
+	return b.String(), cl
+}
+
+// c08FormsSites classifies the rune boundaries of a generated journal by the kind of place (approximately: a comment line starts
+// with * # or //, quotes toggle outside comments).
+func c08FormsSites(text string) map[string][]int {
+	sites := map[string][]int{"file-start": {0}, "file-end": {len(text)}}
+	add := func(k string, p int) { sites[k] = append(sites[k], p) }
+	inQuote := false
+	for ls := 0; ls < len(text); {
+		le := strings.IndexByte(text[ls:], '\n')
+		if le < 0 {
+			le = len(text)
+		} else {
+			le += ls
+		}
+		line := text[ls:le]
+		body := strings.TrimRight(line, "\r")
+		add("line-start", ls)
+		if !inQuote && (strings.TrimSpace(body) == "" || strings.HasPrefix(line, "*") || strings.HasPrefix(line, "#") || strings.HasPrefix(line, "//")) {
+			add("gap-line-start", ls)
+		}
+		switch {
+		case !inQuote && (strings.HasPrefix(line, "*") || strings.HasPrefix(line, "#") || strings.HasPrefix(line, "//")):
+			lead := len(body) - len(strings.TrimLeft(body, "*#/"))
+			add("comment-start", ls+lead)
+			add("comment-end", ls+len(body))
+			for p := lead; p < len(body); p++ {
+				if utf8.RuneStart(body[p]) {
+					add("comment", ls+p)
+				}
+			}
+		case !inQuote && strings.TrimSpace(body) == "":
+			add("blank-line", ls+len(body))
+		default:
+			var prev rune
+			for p, c := range body {
+				if inQuote && c != '"' {
+					add("quoted", ls+p)
+				}
+				if c == '"' {
+					if inQuote {
+						add("quoted-end", ls+p)
+					} else {
+						add("quoted-start", ls+p+1)
+					}
+					inQuote = !inQuote
+				} else if !inQuote && unicode.IsLetter(prev) {
+					add("after-letter", ls+p)
+				}
+				prev = c
+			}
+			if !inQuote {
+				if unicode.IsLetter(prev) {
+					add("after-letter", ls+len(body))
+				}
+				add("line-end", ls+len(body))
+			}
+		}
+		ls = le + 1
+	}
+	return sites
+}
+
+// places that leave a parseable journal parseable (on the unchanged code), and all places
+var c08FormsKeepKinds = []string{"comment", "comment-start", "comment-end", "quoted", "quoted", "quoted-start", "quoted-end", "new-comment", "new-comment", "respell"}
+var c08FormsSiteKinds = []string{"comment", "comment-start", "comment-end", "quoted", "quoted-start", "quoted-end", "new-comment", "new-comment", "blank-line", "after-letter", "line-end", "file-start", "file-end", "respell"}
+
+// c08Forms: a generated journal (layout, stress or already formatted) with one to three insertions.
+func (x *c08run) forms(r *RNG) (string, []string) {
+	var text string
+	var kinds []string
+	switch r.Intn(4) {
+	case 0:
+		text, kinds = synFormatStress(r)
+	case 1:
+		text, kinds = synJournal(r)
+		if res := implParse(text, c07Path); res.Outcome == "ok" {
+			if out, oc := implFormat(res); oc == "ok" {
+				text, kinds = out, append(kinds, "~already-formatted")
+			}
+		}
+	default:
+		text, kinds = synJournal(r)
+	}
+	tags := map[string]bool{}
+	keep := r.Chance(2, 3)
+	for k := r.Range(1, 3); k > 0; k-- {
+		sites := c08FormsSites(text)
+		kind := Pick(r, c08FormsSiteKinds)
+		mat, cl := x.formsMaterial(r)
+		if keep {
+			kind = Pick(r, c08FormsKeepKinds)
+			for cl == "invalid" {
+				mat, cl = x.formsMaterial(r)
+			}
+		}
+		switch kind {
+		case "respell":
+			old := text
+			one := r.Chance(1, 2)
+			for _, p := range c08FormsRespell {
+				if one {
+					text = strings.Replace(text, p[0], p[1], 1)
+				} else {
+					text = strings.ReplaceAll(text, p[0], p[1])
+				}
+			}
+			if text == old {
+				k++ // nothing to respell in this text: draw another place
+				if r.Chance(1, 8) {
+					k--
+				}
+				continue
+			}
+			tags["respell"] = true
+			continue
+		case "new-comment":
+			p := Pick(r, append(sites["line-start"], len(text)))
+			if keep {
+				p = Pick(r, append(sites["gap-line-start"], 0))
+			}
+			lead := Pick(r, []string{"*", "#", "//", "# ", "* ", "// ", "#\t"})
+			if r.Chance(1, 2) {
+				mat = Pick(r, []string{"caf", "note ", "x", "R = 10 k", ""}) + mat + Pick(r, []string{"", " end", "\t", " "})
+			}
+			text = text[:p] + lead + mat + Pick(r, []string{"\n", "\n", "\r\n"}) + text[p:]
+		default:
+			ps := sites[kind]
+			if len(ps) == 0 && keep {
+				k++ // no such place in this text: draw another one
+				if r.Chance(1, 8) {
+					k--
+				}
+				continue
+			}
+			if len(ps) == 0 {
+				ps = sites[Pick(r, []string{"file-start", "file-end"})]
+				kind = "edge"
+			}
+			p := Pick(r, ps)
+			text = text[:p] + mat + text[p:]
+		}
+		tags[kind+"/"+cl] = true
+	}
+	for t := range tags {
+		kinds = append(kinds, "~forms:"+t)
+	}
+	return text, kinds
+}
+
+func (x *c08run) formStreams() {
+	c := x.c
+	t0 := time.Now()
+	defer func() { c.Extra["forms_wall_s"] = time.Since(t0).Seconds() }()
+	nU := c.N(2500, 80000)
+	for i := 0; i < nU; i++ {
+		if !c.Want("forms", i) {
+			continue
+		}
+		text, kinds := x.forms(c.Rng("forms", i))
+		x.one("forms", i, text, kinds)
+	}
+	x.bt.Flush()
+	nUC := c.N(60, 1500)
+	for i := 0; i < nUC; i++ {
+		if !c.Want("formscli", i) {
+			continue
+		}
+		r := c.Rng("formscli", i)
+		texts := []string{}
+		for k := 1 + r.Intn(5)/4; k > 0; k-- {
+			t, _ := x.forms(r)
+			texts = append(texts, t)
+		}
+		x.cliStream("formscli", i, texts)
+	}
+	x.bt.Flush()
+}
+
 // big: files of hundreds to thousands of directives, transactions of 1-40 bookings, running counts (bookings, directives,
 // transactions, lines, bytes, bytes of one line) steered across powers of two inside a directive (c08_big.go); bigcli: such
 // files through the command
@@ -392,7 +619,7 @@ func runC08(c *Ctx) {
 		if h, ok := c.ReplayInput["text_hex"].(string); ok && !strings.HasSuffix(h, "...") {
 			if b, err := hex.DecodeString(h); err == nil {
 				c.Replay = false
-				if c.OnlyStr == "cli" || c.OnlyStr == "bigcli" {
+				if c.OnlyStr == "cli" || c.OnlyStr == "bigcli" || c.OnlyStr == "formscli" {
 					x.cliStream(c.OnlyStr, c.OnlyIndex, []string{string(b)})
 				} else {
 					x.one(c.OnlyStr, c.OnlyIndex, string(b), nil)
@@ -467,6 +694,9 @@ func runC08(c *Ctx) {
 		}
 	}
 	x.bt.Flush()
+
+	// ---- forms, formscli: text whose bytes a Unicode transformation would change, at every kind of place
+	x.formStreams()
 
 	// ---- long: accounts above fmt's width limit of 10^6 runes (c08_long.go)
 	for i, w := range c08LongWidths(c) {
